@@ -2,6 +2,7 @@ import Fdo.Cbor.Proofs
 import Fdo.Cbor.Fuel
 import Fdo.Cbor.Footprint
 import Fdo.Cbor.TypedSuffix
+import Fdo.Cbor.TypedWF
 import Fdo.Gen.Cbor
 /-
 C12 — CBOR decoding of arbitrary bytes is total, bounded and exact.
@@ -185,6 +186,64 @@ theorem typed_unmarshal_no_trailing (ok : CertOracle) (s : Schema) (b : Bytes) (
   split at h
   · rename_i v' heq; simp at h; subst h; exact heq
   · simp at h
+
+/-! ### what is consumed is one well-formed item
+
+`WFN n b r` (`Cbor/WellFormed.lean`) is RFC 8949's grammar of definite-length items stated without any
+decoder, limit or fuel: `b` is `n` items followed by `r`. -/
+
+/-- **What the structural decoder accepts is one well-formed item**, and the stream is left right behind it. -/
+theorem accepted_is_one_well_formed_item (f d : Nat) (b : Bytes) (v : Item) (r : Bytes)
+    (h : decode f d b = some (v, r)) : WF1 b r := decode_wf f d b v r h
+
+/-- **The same for every decode target**: whatever Go type is decoded into, what the decoder consumed is
+exactly one well-formed item — never part of one, never one and a bit of the next (as `ByteWrap` did
+for the head 0x5c before cd51579, and `Bstr[T]` for a string longer than its content before 0388949). -/
+theorem typed_accepted_is_one_well_formed_item (ok : CertOracle) (f d : Nat) (s : Schema) (b : Bytes) (v : Val) (r : Bytes)
+    (h : decodeS ok f d s b = some (v, r)) : WF1 b r := decodeS_wf ok f d s b v r h
+
+/-- **"The next item" is well defined**: bytes cannot be split into an item and a rest in two ways. -/
+theorem item_boundary_unique (b r r' : Bytes) (h1 : WF1 b r) (h2 : WF1 b r') : r = r' := h1.unique h2
+
+/-- **All decoders agree on where an item ends**: two decode targets (two Go types, or a Go type and
+`RawBytes`) that both accept the same stream leave it at the same position. -/
+theorem decoders_agree_on_item_end (ok : CertOracle) (f d f' d' : Nat) (s s' : Schema) (b : Bytes) (v v' : Val) (r r' : Bytes)
+    (h1 : decodeS ok f d s b = some (v, r)) (h2 : decodeS ok f' d' s' b = some (v', r')) : r = r' :=
+  (decodeS_wf ok f d s b v r h1).unique (decodeS_wf ok f' d' s' b v' r' h2)
+
+theorem typed_and_structural_agree_on_item_end (ok : CertOracle) (f d f' d' : Nat) (s : Schema) (b : Bytes) (v : Val) (x : Item)
+    (r r' : Bytes) (h1 : decodeS ok f d s b = some (v, r)) (h2 : decode f' d' b = some (x, r')) : r = r' :=
+  (decodeS_wf ok f d s b v r h1).unique (decode_wf f' d' b x r' h2)
+
+/-- the grammar is not empty: `[1, h'00']` followed by anything is one item followed by that -/
+example (t : Bytes) : WF1 ([0x82, 0x01, 0x41, 0x00] ++ t) t :=
+  .arr (ai := 2) (arg := 2) (r := [0x01, 0x41, 0x00] ++ t) (by simp [decHead])
+    (.scalar (mt := 0) (ai := 1) (arg := 1) (r := [0x41, 0x00] ++ t) (by simp [decHead]) (by omega)
+      (.str (mt := 2) (ai := 1) (arg := 1) (r := [0x00] ++ t) (by simp [decHead]) (by omega) (by simp) (by simpa using .zero)))
+
+/-- and it refuses what is not an item: a two-element array with one element -/
+example : ¬ WF1 [0x82, 0x01] [] := by
+  intro h
+  cases h with
+  | scalar hd hm _ => simp [decHead] at hd; omega
+  | str hd hm _ _ => simp [decHead] at hd; omega
+  | arr hd t =>
+    simp [decHead] at hd; obtain ⟨_, e1, e2⟩ := hd; subst e1 e2
+    cases t with
+    | scalar hd2 _ t2 =>
+      simp [decHead] at hd2; obtain ⟨_, _, _, e⟩ := hd2; subst e
+      cases t2 with
+      | scalar hd3 _ _ => simp [decHead] at hd3
+      | str hd3 _ _ _ => simp [decHead] at hd3
+      | arr hd3 _ => simp [decHead] at hd3
+      | map hd3 _ => simp [decHead] at hd3
+      | tag hd3 _ => simp [decHead] at hd3
+    | str hd2 hm2 _ _ => simp [decHead] at hd2; omega
+    | arr hd2 _ => simp [decHead] at hd2
+    | map hd2 _ => simp [decHead] at hd2
+    | tag hd2 _ => simp [decHead] at hd2
+  | map hd _ => simp [decHead] at hd
+  | tag hd _ => simp [decHead] at hd
 
 /-- The model's length limit is the constant the code was compiled with (regenerated table). -/
 theorem gen_maxLen_eq : Fdo.Gen.Cbor.maxArrayDecodeLength = maxLen := by decide
